@@ -199,6 +199,10 @@ def gen_movie(rng, tier, kind=None):
     # A hot pixel is never a feature; a withheld blob next to one must still be re-found (the brightest candidate by
     # PEAK is not the brightest by MASS)
     hot = kind == 'complete' and not signed and rng.random() < 0.25
+    # 'rough': a 'complete' layout of narrow blobs over a rough texture (uniform noise 0..24, new in every frame), wide separation
+    # and search range, minmass between the texture's and the blobs' mask mass, no preprocessing: the relocation window holds many
+    # texture maxima - some beyond search_range, some within separation of the blob's peak
+    rough = kind == 'complete' and not signed and not hot and rng.random() < 0.55
     sr = rng.choice([3, 3.5, 4, 5, 5, 6])
     sep = rng.choice([7, 9, 9, 11])
     if kind == 'dense':
@@ -219,6 +223,9 @@ def gen_movie(rng, tier, kind=None):
     if hot:
         sr, sep, dia, rad, sig, pre = rng.choice([7, 8]), 5, None, 2, 1.0, False
         amp = rng.choice([150, 200, 220])
+    if rough:
+        sr, sep, dia, rad, sig, pre = rng.choice([10, 12]), 9, 9, 4, 1.3, False
+        amp = rng.choice([200, 220])
     S = rng.choice([64, 72, 80]) if kind in ('complete', 'dense') else rng.choice([40, 48, 56])
     shape = (S, S + rng.choice([0, 8]))
     tracks = []
@@ -250,7 +257,7 @@ def gen_movie(rng, tier, kind=None):
         p0 = place(rng, rng.randint(3, 8), shape, lo, dmin)
         cur = list(p0)
         tracks = [[p] for p in p0]
-        st = steps_within(sr) if not hot else steps_within(2.5)
+        st = steps_within(sr) if not (hot or rough) else steps_within(2.5 if hot else sr / 2.0)
         for t in range(1, nfr):
             new = []
             for i, p in enumerate(cur):
@@ -277,6 +284,8 @@ def gen_movie(rng, tier, kind=None):
             pre, noise_kind, minmass = False, 'none', 0
         elif hot:
             pre, noise_kind, minmass = False, 'none', 400
+        elif rough:
+            pre, noise_kind, minmass = False, 'rough', 1800
         elif rng.random() < 0.3:
             # mixed brightness with a lowered percentile: faint blobs whose peak lies between the user's percentile and
             # the default 64th percentile of the (bandpassed) frame; they are tracked only because the user lowered
@@ -286,7 +295,7 @@ def gen_movie(rng, tier, kind=None):
         elif pre:
             noise_kind, minmass = 'none', 0
         else:
-            noise_kind = rng.choice(['none', 'none', 'low'])
+            noise_kind = rng.choice(['none', 'low', 'low'])       # low texture: dim maxima everywhere, also next to the blobs
             minmass = rng.choice([0, 0, None]) if noise_kind == 'none' else None
     elif kind == 'dense':
         noise_kind, minmass = 'none', 0
@@ -398,7 +407,7 @@ def gen_movie(rng, tier, kind=None):
                          hotmap if hotmap is not None else G.noise_texture(rng, shape, noise_kind)) for t in range(nfr)]
     frames = None
     fading = False
-    if kind == 'complete' and not signed and not mixed and not hot and noise_kind == 'none' and rng.random() < 0.45:
+    if kind == 'complete' and not signed and not mixed and not hot and not rough and noise_kind == 'none' and rng.random() < 0.45:
         # illumination drift / photobleaching: the whole frame gets dimmer (or brighter) from frame to frame, so the
         # brightness level that admits relocation candidates (a percentile of EACH frame) changes with the frame;
         # longer movies, detections withheld early and late.  Calibrated with the implementation: nothing withheld ->
@@ -473,8 +482,8 @@ def gen_movie(rng, tier, kind=None):
             out.append(g)
         frames = out
     return dict(kind=kind, frames=frames, tracks=tracks, sr=sr, sep=sep, dia=dia, rad=rad, memory=mem, preprocess=pre,
-                minmass=minmass, pw=(pw if not hot or pw > 0 else 0.6), wseed=rng.randint(0, 2 ** 30), noise=noise_kind, percentile=percentile, mixed=mixed, fading=fading,
-                hot=bool(hot))
+                minmass=minmass, pw=(pw if not (hot or rough) or pw > 0 else 0.6), wseed=rng.randint(0, 2 ** 30), noise=noise_kind, percentile=percentile, mixed=mixed, fading=fading,
+                hot=bool(hot), rough=bool(rough))
 
 
 def run_movie(c, withhold=True):
@@ -725,6 +734,8 @@ def eval_movies(chk, movies, tag):
         nadded = sum(1 for t in rows if t >= 1 for x in rows[t] if (int(x['pos'][0]), int(x['pos'][1])) not in set(initial.get(t, dict(given=[]))['given']))
         nwith = sum(len(v['detected']) - len(v['given']) for t, v in initial.items() if t >= 1)
         chk.count(('movie', movie_json(c, rows, initial)), nadded >= 1)
+        if c.get('rough'):
+            chk.tally('movie of narrow blobs over a rough texture (minmass between texture and blob mass)')
         if c.get('hot'):
             chk.tally('movie with hot pixels next to the blobs (minmass > 0)')
         if c.get('fading'):
